@@ -411,6 +411,14 @@ def _sink_returns(tree: ast.AST) -> None:
             return bool(last.orelse) and leaves(last.body) and leaves(last.orelse)
         return False
 
+    def append_ret(b, ret) -> None:
+        # `v = e` directly followed by `return v`, v read by nothing but such returns: `return e`
+        if isinstance(ret.value, ast.Name) and b and isinstance(b[-1], ast.Assign) and len(b[-1].targets) == 1 and isinstance(b[-1].targets[0], ast.Name) \
+                and b[-1].targets[0].id == ret.value.id and ret.value.id in only_returned:
+            b[-1] = ast.copy_location(ast.Return(value=b[-1].value), b[-1])
+        else:
+            b.append(_copy.deepcopy(ret))
+
     def push_return(block, ret, depth=0) -> None:
         """block ends with an `if` (possibly without else) and is followed by `ret`: every branch gets its own copy of the return"""
         last = block[-1] if block else None
@@ -421,16 +429,45 @@ def _sink_returns(tree: ast.AST) -> None:
                     if b and isinstance(b[-1], ast.If):
                         push_return(b, ret, depth + 1)
                     else:
-                        b.append(_copy.deepcopy(ret))
+                        append_ret(b, ret)
             return
-        block.append(_copy.deepcopy(ret))
+        append_ret(block, ret)
     for fn in ast.walk(tree):
         if not isinstance(fn, (ast.FunctionDef, ast.AsyncFunctionDef)):
             continue
+        # names that are read by `return <name>` statements only
+        only_returned = set()
+        ld: Dict[str, int] = {}
+        rl: Dict[str, int] = {}
+        for n in ast.walk(fn):
+            if isinstance(n, ast.Name) and isinstance(n.ctx, ast.Load):
+                ld[n.id] = ld.get(n.id, 0) + 1
+            if isinstance(n, ast.Return) and isinstance(n.value, ast.Name):
+                rl[n.value.id] = rl.get(n.value.id, 0) + 1
+        only_returned = {k for k, v in rl.items() if ld.get(k) == v}
         changed = True
         while changed:
             changed = False
             body = fn.body
+            # the same inside the branches of trailing conditionals (`else: if c: s = X` + `return s` nested one level down)
+            def nested_tail(block, depth=0):
+                did = False
+                if depth > 4 or not block:
+                    return False
+                if len(block) >= 2 and isinstance(block[-1], ast.Return) and isinstance(block[-2], ast.If) and not leaves([block[-2]]) \
+                        and not any(isinstance(n, (ast.For, ast.While, ast.Try, ast.With, ast.FunctionDef, ast.Lambda)) for n in ast.walk(block[-2])) \
+                        and sum(1 for n in ast.walk(block[-1])) <= 40 and block is not body:
+                    ret = block.pop()
+                    push_return(block, ret)
+                    did = True
+                last = block[-1]
+                if isinstance(last, ast.If):
+                    did = nested_tail(last.body, depth + 1) or did
+                    did = nested_tail(last.orelse, depth + 1) or did
+                return did
+            if nested_tail(body):
+                changed = True
+                continue
             # tail duplication: `if c: A` (no else / falling through) followed by `return e`  ->  a return at the end of each branch
             if len(body) >= 2 and isinstance(body[-1], ast.Return) and isinstance(body[-2], ast.If) and not leaves([body[-2]]) \
                     and not any(isinstance(n, (ast.For, ast.While, ast.Try, ast.With, ast.FunctionDef, ast.Lambda)) for n in ast.walk(body[-2])) \
@@ -451,7 +488,7 @@ def _sink_returns(tree: ast.AST) -> None:
                         if blk and isinstance(blk[-1], ast.If) and not any(isinstance(n, (ast.For, ast.While, ast.Try, ast.With)) for n in ast.walk(blk[-1])):
                             push_return(blk, ret)
                         else:
-                            blk.append(_copy.deepcopy(ret))
+                            append_ret(blk, ret)
                 changed = True
                 continue
             if len(body) >= 2 and isinstance(body[-1], ast.Return) and isinstance(body[-1].value, ast.Name):
@@ -470,8 +507,25 @@ class _SplitTupleAssign(ast.NodeTransformer):
     time.  Name targets with arbitrary right-hand sides (evaluation order is kept); self.<attr> targets only with plain
     names / literals on the right."""
 
+    def visit_Return(self, n):
+        self.generic_visit(n)
+        # `return a if c else b` is `if c: return a  else: return b`
+        if isinstance(n.value, ast.IfExp):
+            a = self.visit_Return(ast.copy_location(ast.Return(value=n.value.body), n))
+            b = self.visit_Return(ast.copy_location(ast.Return(value=n.value.orelse), n))
+            return ast.copy_location(ast.If(test=n.value.test, body=[a], orelse=[b]), n)
+        return n
+
     def visit_Assign(self, n):
         self.generic_visit(n)
+        # `a, b = (x, y) if c else (u, v)` is `if c: a, b = x, y  else: a, b = u, v`
+        if len(n.targets) == 1 and isinstance(n.targets[0], (ast.Tuple, ast.List)) and isinstance(n.value, ast.IfExp) \
+                and isinstance(n.value.body, (ast.Tuple, ast.List)) and isinstance(n.value.orelse, (ast.Tuple, ast.List)):
+            import copy as _c
+            a = ast.copy_location(ast.Assign(targets=[_c.deepcopy(n.targets[0])], value=n.value.body), n)
+            b = ast.copy_location(ast.Assign(targets=[_c.deepcopy(n.targets[0])], value=n.value.orelse), n)
+            ra, rb = self.visit_Assign(a), self.visit_Assign(b)
+            return ast.copy_location(ast.If(test=n.value.test, body=ra if isinstance(ra, list) else [ra], orelse=rb if isinstance(rb, list) else [rb]), n)
         if len(n.targets) != 1 or not isinstance(n.targets[0], (ast.Tuple, ast.List)) or not isinstance(n.value, (ast.Tuple, ast.List)):
             return n
         ts, vs = n.targets[0].elts, n.value.elts
